@@ -9,7 +9,7 @@
    different character of the haystack, and "captured = instantiated" is then only true up to case. *)
 Require Import Coq.Strings.String.
 Require Import RIO.Base RIO.Pct RIO.Url RIO.Prefix RIO.RegexSem RIO.Marker RIO.MarkerProofs RIO.Rx RIO.C10Run.
-Require Import RIO.RxMatch RIO.RxToks RIO.RxTokSem RIO.RxTokSem3 RIO.RxCapt RIO.RxCapt2 RIO.RxCapt3.
+Require Import RIO.RxMatch RIO.RxToks RIO.RxTokSem RIO.RxTokSem3 RIO.RxCapt RIO.RxCapt2 RIO.RxCapt3 RIO.RxCapt4 RIO.RxCapt5.
 Close Scope N_scope.
 
 (* (1) capture-aware soundness of the matcher: [reachc] threads the capture list; a capturing group RGroup (Some i) a
@@ -92,9 +92,103 @@ Example capture_example :
   /\ cap_fun ps 1 [(2, (6, 8)); (1, (3, 5))] (instantiate val ps) (lit "n") = lit "xy".
 Proof. cbv zeta. repeat split; vm_compute; reflexivity. Qed.
 
+(* ================================================================== the MODEL's capture function *)
+(* Marker.ms_capture_run: decode the capture pattern the model built (named groups), strip_named it, call the engine's
+   captures on ^stripped$, and insert name -> substring for every named group.
+   (1) is NOT proved in general; it is reduced to an executable check on the model's own output:
+       [strip_ok markers ps m]  =  strip_named (utf8_decode (ms_capture m)) returns exactly
+                                   (render (map (ctok markers) ps), the references numbered 1, 2, ... in template order),
+                                   without duplicate or ill-formed group names.
+   (2) under that check and the hypotheses of C10_capture_rx, the association list the model returns maps every
+       referenced name to its instantiated value — when the capture regex matches; otherwise the model returns []. *)
+Lemma marker_string_new_ic : forall s markers ic m, marker_string_new s markers ic = Some m -> ms_ignore_case m = ic.
+Proof.
+  intros s markers ic m. unfold marker_string_new. destruct (fold_left _ _ _) as [[regex capture] names].
+  destruct (is_nil names); [discriminate|]. intros H. inversion H. reflexivity.
+Qed.
+
+Theorem C10_model_capture_rx : forall markers sepb (val : str -> str) ps m,
+  marker_string_new (template_text ps) markers false = Some m -> strip_ok markers ps m = true ->
+  forallb cap_simple (map (ctok markers) ps) = true -> NoDup (refs ps) -> (forall x, In x (refs ps) -> all_ascii x = true) ->
+  (forall n whole p k, In n (refs ps) -> G_rx false (regex_of markers n) whole p k = true -> sep_free sepb (firstn k (skipn p whole)) = true) ->
+  sep_delimited sepb ps = true -> (forall n, sep_free sepb (val n) = true) ->
+  all_ascii (instantiate val ps) = true ->
+  eng_is_match rxE false (leaf_regex (render (map (ctok markers) ps))) (instantiate val ps) = true ->
+  forall n, In (PRef n) ps ->
+    assoc n (sod_capture rxE (new_with_markers (template_text ps) markers false) (instantiate val ps)) = Some (val n).
+Proof.
+  intros markers sepb val ps m Hm Hstrip Hsimple Hnd Hasc HG Hd Hv Hhay Hmatch n Hin.
+  unfold new_with_markers. destruct markers as [|mk markers]; [cbn in Hm; unfold marker_string_new in Hm; cbn in Hm; discriminate|].
+  cbn [is_nil]. rewrite Hm. cbn [sod_capture].
+  apply (model_capture_rx (mk :: markers) sepb val ps m (marker_string_new_ic _ _ _ _ Hm) Hstrip Hsimple Hnd Hasc HG Hd Hv Hhay Hmatch n Hin).
+Qed.
+
+(* markers [0-9]+ / [a-z]+ and separator '/': only the executable check on the model's pattern and the match remain *)
+Theorem C10_model_capture_rx_simple : forall markers (val : str -> str) ps m,
+  marker_string_new (template_text ps) markers false = Some m -> strip_ok markers ps m = true ->
+  (forall n, In n (refs ps) -> fam_cap (regex_of markers n) = true) -> NoDup (refs ps) -> (forall x, In x (refs ps) -> all_ascii x = true) ->
+  sep_delimited sep_slash_c ps = true -> (forall n, sep_free sep_slash_c (val n) = true) ->
+  all_ascii (instantiate val ps) = true ->
+  eng_is_match rxE false (leaf_regex (render (map (ctok markers) ps))) (instantiate val ps) = true ->
+  forall n, In (PRef n) ps ->
+    assoc n (sod_capture rxE (new_with_markers (template_text ps) markers false) (instantiate val ps)) = Some (val n).
+Proof.
+  intros markers val ps m Hm Hstrip Hfam Hnd Hasc Hd Hv Hhay Hmatch.
+  apply (C10_model_capture_rx markers sep_slash_c val ps m Hm Hstrip (fam_cap_simple markers ps Hfam) Hnd Hasc); try assumption.
+  intros n whole p k Hn Hg. apply (fam_cap_no_slash false _ whole p k (Hfam n Hn) Hg).
+Qed.
+
+(* (1), second half PROVED (RIO.RxCapt5): Marker.strip_named maps the NAMED rendering of a template
+   ( literal | (?P<name>regex) )*  to the token rendering, numbering the references 1, 2, ... in template order — for
+   literal pieces that are not regex meta characters and marker regexes [0-9]+ / [a-z]+ . *)
+Theorem strip_named_on_named_rendering : forall markers ps, Forall (piece_ok markers) ps ->
+  strip_named (S (length (render_named markers ps))) (render_named markers ps) 0 1 [] [] =
+  Some (render (map (ctok markers) ps), index_refs ps 1).
+Proof. exact strip_render_named. Qed.
+(* so [strip_ok] follows from an EQUALITY on the model's capture pattern: what remains unproved of (1) is only that
+   MarkerString::new's string substitutions produce this named rendering (first half; true on the example below) *)
+Theorem C10_model_capture_rx_named : forall markers (val : str -> str) ps m,
+  marker_string_new (template_text ps) markers false = Some m ->
+  utf8_decode (ms_capture m) = render_named markers ps ->
+  Forall (piece_ok markers) ps -> has_dup (refs ps) = false -> forallb group_name_ok (refs ps) = true ->
+  NoDup (refs ps) -> (forall x, In x (refs ps) -> all_ascii x = true) ->
+  sep_delimited sep_slash_c ps = true -> (forall n, sep_free sep_slash_c (val n) = true) ->
+  all_ascii (instantiate val ps) = true ->
+  eng_is_match rxE false (leaf_regex (render (map (ctok markers) ps))) (instantiate val ps) = true ->
+  forall n, In (PRef n) ps ->
+    assoc n (sod_capture rxE (new_with_markers (template_text ps) markers false) (instantiate val ps)) = Some (val n).
+Proof.
+  intros markers val ps m Hm Hcap Hp Hdup Hgn Hnd Hasc Hd Hv Hhay Hmatch.
+  apply (C10_model_capture_rx_simple markers val ps m Hm (strip_ok_of_named markers ps m Hp Hcap Hdup Hgn)); try assumption.
+  intros n Hn. rewrite Forall_forall in Hp.
+  assert (Hin : In (PRef n) ps).
+  { clear - Hn. induction ps as [|[c|x] ps IH]; cbn [refs flat_map app] in Hn; [destruct Hn|right; apply IH; exact Hn|].
+    destruct Hn as [->|Hn]; [left; reflexivity|right; apply IH; exact Hn]. }
+  destruct (Hp _ Hin) as [[Hb|Hb] _]; unfold fam_cap; rewrite Hb; reflexivity.
+Qed.
+
+(* (3) /a/@id/@n : the check holds on the model's own pattern, and the model's capture is the instantiation *)
+Example model_capture_example :
+  let markers := [(lit "id", cbody_digits); (lit "n", cbody_lower)] in
+  let ps := [PLit 47; PLit 97; PLit 47; PRef (lit "id"); PLit 47; PRef (lit "n")]%N in
+  let val := fun n => if str_eqb n (lit "id") then lit "12" else lit "xy" in
+  (exists m, marker_string_new (template_text ps) markers false = Some m /\ strip_ok markers ps m = true
+             /\ ms_capture m = lit "/a/(?P<id>[0-9]+)/(?P<n>[a-z]+)")
+  /\ template_text ps = lit "/a/@id/@n" /\ instantiate val ps = lit "/a/12/xy"
+  /\ sod_capture rxE (new_with_markers (template_text ps) markers false) (instantiate val ps) = [(lit "id", lit "12"); (lit "n", lit "xy")].
+Proof.
+  cbv zeta. split; [|repeat split; vm_compute; reflexivity].
+  eexists. split; [vm_compute; reflexivity|]. repeat split; vm_compute; reflexivity.
+Qed.
+
 Print Assumptions rx_matcher_sound_captures.
 Print Assumptions rx_reachc_forgets_to_reach.
 Print Assumptions rx_captures_valid.
 Print Assumptions C10_capture_rx.
 Print Assumptions C10_capture_rx_simple.
 Print Assumptions capture_example.
+Print Assumptions C10_model_capture_rx.
+Print Assumptions C10_model_capture_rx_simple.
+Print Assumptions model_capture_example.
+Print Assumptions strip_named_on_named_rendering.
+Print Assumptions C10_model_capture_rx_named.
